@@ -17,7 +17,7 @@ PROPS = {}
 
 # which Verus units a fallback part can stand in for (a fallback part is skipped when none of them is undecided)
 FALLBACK_FOR = {('kani', 'api'): {'xoshiro', 'xorshift'}, ('diff', 'jitter'): {'jitter'}, ('kani', 'hc128_incrate'): {'hc128'},
-                ('kani', 'isaac_incrate'): {'isaac'}, ('kani', 'isaac64_incrate'): {'isaac64'}}
+                ('kani', 'isaac_incrate'): {'isaac'}, ('kani', 'isaac64_incrate'): {'isaac64'}, ('diff', 'isaac'): {'isaac', 'isaac64'}}
 
 
 def run_part(part, seed=0, tier='quick', threads=16, prop=None, stop_on_failure=False, only=None):
@@ -32,6 +32,8 @@ def run_part(part, seed=0, tier='quick', threads=16, prop=None, stop_on_failure=
         return cex.isaac_serde_sweep_part()
     if kind == 'diff':
         from . import cex
+        if part[1] == 'isaac':
+            return cex.isaac_diff_part()
         return cex.jitter_diff_part(prop, seed=seed)
     if kind == 'static':
         from . import static
@@ -80,8 +82,8 @@ reg('C02', [('verus', 'hc128')], thorough=[('verus', 'hc128'), ('kani', 'hc128_i
     explanation='step_p/step_q against Wu\'s update/output functions, generate == 16 keystream steps at the current counter (all 32 unrolled calls, both phases, counter wrap), sixteen_steps/init == key/IV expansion W followed by 1024 initialisation steps, from_seed == init of the LE words; bridge lemma code association order == Wu\'s g1/g2/h1/h2',
     assumptions=['Hc128Rng forwards to rand_core::block::BlockRng: words of each 16-word block are handed out in order (Kani harness on the real rand_core, thorough tier)'])
 
-reg('C03', [('verus', 'isaac'), ('verus', 'isaac64')], thorough=[('verus', 'isaac'), ('verus', 'isaac64'), ('kani', 'isaac_incrate'), ('kani', 'isaac64_incrate'), ('kani', 'blockrng')],
-    fallback=[('kani', 'isaac_incrate'), ('kani', 'isaac64_incrate')], level='proof',
+reg('C03', [('verus', 'isaac'), ('verus', 'isaac64')], thorough=[('verus', 'isaac'), ('verus', 'isaac64'), ('kani', 'isaac_incrate'), ('kani', 'isaac64_incrate'), ('kani', 'blockrng'), ('diff', 'isaac')],
+    fallback=[('diff', 'isaac'), ('kani', 'isaac_incrate'), ('kani', 'isaac64_incrate')], level='proof',
     trusted_base=TB_COMMON + ['T4 Wrapping shim: local stand-in for core::num::Wrapping with verified operator impls (same operator semantics assumed; Kani cross-check)'],
     explanation='ind/rngstep/generate against Jenkins\' isaac()/isaac64() (all eight unrolled rngstep call sites, both halves, results in reference hand-out order), mix/init against randinit (golden-ratio premix re-derived by compute), seed_from_u64 key layout and single pass',
     assumptions=['from_seed (iterator zip) and from_rng/try_from_rng (unsafe raw-parts) are decided by Kani harnesses with a recording init stub (thorough tier)',
